@@ -1,3 +1,3 @@
-(* _client.py :: async_ncrypt_protect_secret :: ('callarg', '_async_get_key', 0, 1) :  sd *)
-Definition k_onl_aprot_arg1 (sd : list Z) : list Z :=
-  sd.
+(* _client.py :: async_ncrypt_protect_secret :: shape kernel :  _async_get_key(... 1: sd  [= ProtectionDescriptor.parse(protection_descriptor).get_target_sd()] ...) *)
+Definition k_onl_aprot_arg1 (target_sd : list Z) : list Z :=
+  target_sd.
